@@ -32,7 +32,7 @@ def main():
             continue
         tmp = tempfile.mkdtemp(prefix="vk-mut-")
         try:
-            shutil.copytree("/repo/src", os.path.join(tmp, "src"))
+            shutil.copytree(os.environ.get("MUT_BASE", "/repo/src"), os.path.join(tmp, "src"))
             path = os.path.join(tmp, "src", "votekit", relfile)
             s = open(path).read()
             if s.count(old) < 1:
